@@ -185,10 +185,20 @@ class SymSession(_Base):
         """A numeral in a text source: (token, value, bad flag)."""
         v = self.integer(name) if integer else self.real(name, nan=nan)
         bad = self.boolean(name + ".bad") if can_be_bad else False
-        return V.Token(name, v, bad), v, bad
+        return V.Token("0", v, bad), v, bad      # the text is a placeholder numeral
 
     def choose(self, name, n):
         return self.ctx.choose(n, name)
+
+    def token_decimal(self, name, lo, hi, scale=1000):
+        """A decimal numeral with at most log10(scale) decimals: (token, value)."""
+        k = self.integer(name, lo=int(lo * scale), hi=int(hi * scale))
+        v = SymFloat(z3.ToReal(k.e) / scale)
+        return V.Token("0", v, False), v      # the text is a placeholder numeral
+
+    def arg(self, parts):
+        """A command-line argument made of tokens and separator strings."""
+        return V.SymArg(parts)
 
     def array(self, name, shape, nan=True, lo=None, hi=None):
         if isinstance(shape, int):
@@ -311,6 +321,14 @@ class ConcSession(_Base):
         k = self.counter.get(name, 0)
         self.counter[name] = k + 1
         return int(self._get("%s!%d" % (name, k)))
+
+    def token_decimal(self, name, lo, hi, scale=1000):
+        k = int(self._get(name))
+        v = k / float(scale)
+        return ("%d" % (k // scale)) if k % scale == 0 else repr(v), np.float64(v)
+
+    def arg(self, parts):
+        return "".join(str(p) for p in parts)
 
     def array(self, name, shape, nan=True, lo=None, hi=None):
         if isinstance(shape, int):
